@@ -30,6 +30,8 @@ pub struct PoolIndex {
     pub hint_buckets: Vec<usize>,
     /// evaluators the change under test touches
     pub hint_evs: Vec<Ev>,
+    /// placeholder-sensitive expressions generated for the change under test (origin change_focus)
+    pub focus_exprs: Vec<u32>,
 }
 
 pub const FN_TOKENS: [&str; 64] = [
@@ -114,6 +116,9 @@ pub fn index_pool(pool: &mut Pool) -> PoolIndex {
             let any_panic = es.iter().any(|x| matches!(pool.entries[*x as usize].oracle, Outcome::Panic(_)));
             if !any_panic && es.iter().any(|x| &pool.entries[*x as usize].oracle != first) {
                 ix.sensitive_exprs.push(id as u32);
+                if pool.entries[es[0] as usize].origin == "change_focus" {
+                    ix.focus_exprs.push(id as u32);
+                }
                 for x in es {
                     ix.entry_sensitive[*x as usize] = true;
                 }
@@ -255,7 +260,9 @@ pub fn make_spec(pool: &Pool, ix: &PoolIndex, seed: u64, kind: RunKind, allow_in
             r.pick(&pool.sib_groups).clone()
         } else {
             let n = r.range(1, 3);
-            (0..n).map(|_| *r.pick(&ix.sensitive_exprs)).collect()
+            // with a change under test, half of the hot sets come from the expressions generated for it
+            let from = if !ix.focus_exprs.is_empty() && r.chance(0.5) { &ix.focus_exprs } else { &ix.sensitive_exprs };
+            (0..n).map(|_| *r.pick(from)).collect()
         }
     } else {
         Vec::new()
